@@ -379,12 +379,91 @@ def canon_chunking(fnode):
     return node
 
 
+def canon_position_chunks(fnode):
+    """P = np.array_split(np.arange(len(L)), K)[IDX]  and every loop / comprehension over P (or P.tolist()) uses its variable p only as L[p]
+    ->  the loop runs over np.array_split(L, K)[IDX].tolist() and reads the element itself (contiguous position blocks select the same
+    contiguous blocks of L).  Returns a rewritten copy, or None."""
+    import copy as _copy
+    node = _copy.deepcopy(fnode)
+    env = single_defs(node)
+    hit = None
+    for nm, v in env.items():
+        if isinstance(v, ast.Subscript) and isinstance(v.value, ast.Call) and call_name(v.value) == "np.array_split" and len(v.value.args) == 2:
+            a0 = v.value.args[0]
+            if isinstance(a0, ast.Call) and call_name(a0) == "np.arange" and len(a0.args) == 1 and isinstance(a0.args[0], ast.Call) and call_name(a0.args[0]) == "len" \
+                    and isinstance(a0.args[0].args[0], ast.Name):
+                hit = (nm, a0.args[0].args[0].id, v.value.args[1], v.slice)
+    if hit is None:
+        return None
+    P, L, K, IDX = hit
+    uses = [x for x in ast.walk(node) if isinstance(x, ast.Name) and x.id == P and isinstance(x.ctx, ast.Load)]
+    par = enclosing_map(node)
+    changed = False
+    for u in uses:
+        it = u
+        if isinstance(par.get(u), ast.Attribute) and par[u].attr == "tolist" and isinstance(par.get(par[u]), ast.Call):
+            it = par[par[u]]
+        owner = par.get(it)
+        if isinstance(owner, ast.comprehension) and owner.iter is it and isinstance(owner.target, ast.Name):
+            comp = par.get(owner)
+            pv = owner.target.id
+            scope = [comp]
+        elif isinstance(owner, ast.For) and owner.iter is it and isinstance(owner.target, ast.Name):
+            pv = owner.target.id
+            scope = owner.body
+        else:
+            return None
+        reads = [x for s_ in scope for x in ast.walk(s_) if isinstance(x, ast.Name) and x.id == pv and isinstance(x.ctx, ast.Load)]
+        spar = {}
+        for s_ in scope:
+            for n in ast.walk(s_):
+                for c in ast.iter_child_nodes(n):
+                    spar[c] = n
+        if not reads or not all(isinstance(spar.get(x), ast.Subscript) and spar[x].slice is x and U(spar[x].value) == L for x in reads):
+            return None
+        new_iter = ast.Name(id=f"{P}__items", ctx=ast.Load())
+        elem = f"{pv}__item"
+
+        class T(ast.NodeTransformer):
+            def visit_Subscript(self, n):
+                self.generic_visit(n)
+                if isinstance(n.slice, ast.Name) and n.slice.id == pv and U(n.value) == L:
+                    return ast.copy_location(ast.Name(id=elem, ctx=ast.Load()), n)
+                return n
+        if isinstance(owner, ast.comprehension):
+            owner.iter = new_iter
+            owner.target = ast.Name(id=elem, ctx=ast.Store())
+            for fld in ("elt", "key", "value"):
+                if hasattr(comp, fld):
+                    setattr(comp, fld, T().visit(getattr(comp, fld)))
+            owner.ifs = [T().visit(c) for c in owner.ifs]
+        else:
+            owner.iter = new_iter
+            owner.target = ast.Name(id=elem, ctx=ast.Store())
+            owner.body = [T().visit(s_) for s_ in owner.body]
+        changed = True
+    if not changed:
+        return None
+    # the definition of P becomes the definition of the chunk itself
+    for st in ast.walk(node):
+        if isinstance(st, ast.Assign) and len(st.targets) == 1 and isinstance(st.targets[0], ast.Name) and st.targets[0].id == P:
+            st.targets[0].id = f"{P}__items"
+            st.value = parse_expr(f"np.array_split({L}, {U(K)})[{U(IDX)}].tolist()")
+    ast.fix_missing_locations(node)
+    return node
+
+
 def score_chunk_fn(ctx):
     """score_chunk, with a hand-written array_split layout (telescoping divmod bounds) rewritten to the library call"""
     import copy as _copy
     f = ctx.fn("scoring.main.score_chunk")
     if [c for c in calls(f.node, name="np.array_split")]:
-        return f
+        node = canon_position_chunks(f.node)
+        if node is None:
+            return f
+        g = _copy.copy(f)
+        g.node = node
+        return g
     node = canon_chunking(f.node)
     if node is None:
         return f
